@@ -27,6 +27,8 @@ func runC11(c *Ctx) {
 	ruleCloseOnEveryExit(c, "R11.e")
 	ruleRegistryBracket(c, "R11.e")
 	ruleNoRetryAfterParseError(c, "R11.f")
+	c.rule("R11.g", "after the handler call the connection loop is left only through the QUIT sentinel: neither a handler error nor a failed reply write ends it, so every request received completely before the stream ended is executed")
+	ruleExitsAfterHandler(c, "R11.g", false, false)
 	c.assume("requests are arrays of bulk strings (the property's quantifier): a partial line-type element at end of stream is outside it")
 }
 
